@@ -2,7 +2,8 @@
   Driver for C04.  stdin: one case per line, stdout: `<model observation>\t<spec verdict>`.
 
   `m <e|n> <pattern hex> <text hex>`   Pattern API: `e` = `with_escape`, `n` = `without_escape`
-  `k <subject hex> <item> …`            shell leg: a whole `case` command; item = `<b|f|c>:<alt>,<alt>…`
+  `a <ast> <text hex>`                  Pattern API on a hand-built syntax tree (`from_ast*`), encoding below
+  `k <subject hex> <item> …`            shell leg: `st 7; case …`; item = `<b|f|c><e|z|s>:<alt>,<alt>…`
                                         (`;;` `;&` `;;&`), alt = `v<hex>` `$N` | `q<hex>` `"$N"` | `l<hex>` text in the
                                         script | `s<hex>` `'text'` | `m<hex>_<hex>` `"$N"$M`
   `s <subject hex> <q1> <p1> <q2> <p2>` shell leg: `case $1 in ("$2"$3) …;; ("$4"$5) …;; (*) …` and
@@ -50,8 +51,13 @@ def substrings (s : List Char) : List (List Char) :=
   (List.range (s.length + 1)).flatMap fun i =>
     (List.range (s.length - i + 1)).map fun l => (s.drop i).take l
 
-def observe (pcs : List PatternChar) (text : List Char) : String × String :=
-  let ast := parseAtoms pcs
+/-- `trim::apply` on a scalar for an already parsed pattern (`trimApply` = this after `parseAtoms`) -/
+def trimAst (sd : TrimSide) (ln : TrimLength) (ast : Ast) (v : List Char) : List Char :=
+  match Pattern.fromAst ast (trimConfig sd ln) with
+  | .ok p => trimValue p v
+  | .error _ => v
+
+def observe (ast : Ast) (text : List Char) : String × String :=
   match Pattern.fromAst ast (mkCfg true true false false) with
   | .error e =>
     let spec := if astDefined ast then "FAIL:defined-pattern-rejected" else "-"
@@ -70,7 +76,7 @@ def observe (pcs : List PatternChar) (text : List Char) : String × String :=
     let lp := [(true, true), (false, false), (true, false)].map fun (ab, ae) =>
       let p := pat ab ae false true
       s!"{bit (p.isMatch text)}{showRange text (p.find text)}"
-    let t := trims.map fun (sd, ln) => encChars (trimApply sd ln pcs text)
+    let t := trims.map fun (sd, ln) => encChars (trimAst sd ln ast text)
     let obs := s!"E=ok L={bit lit} M={"".intercalate m} F={",".intercalate f} P={",".intercalate lp} T={",".intercalate t}"
     -- Spec
     let gm := globMatch ast text
@@ -82,7 +88,7 @@ def observe (pcs : List PatternChar) (text : List Char) : String × String :=
       -- shortest/longest with multi-character collating elements is outside the defined notation
       -- (POSIX locale has none; which of `a` / `ab` a bracket takes first is unspecified): not compared
       else if hasSeq ast then "ok"
-      else match trims.find? (fun (sd, ln) => specTrim sd ln ast text != trimApply sd ln pcs text) with
+      else match trims.find? (fun (sd, ln) => specTrim sd ln ast text != trimAst sd ln ast text) with
         | some (sd, ln) => s!"FAIL:trim-{repr sd}-{repr ln}"
         | none => "ok"
     (obs, spec)
@@ -101,7 +107,10 @@ def observeShell (subj q1 p1 q2 p2 : List Char) : String × String :=
   let arm := match caseFirst [pa, pb, star] subj with
     | some 0 => "1" | some 1 => "2" | some _ => "0" | none => "none"
   let t := trims.map fun (sd, ln) => encChars (trimApply sd ln pa subj)
-  let obs := s!"arm={arm} T={",".intercalate t}"
+  -- `set -- "$s" "x$s" "$s$s" ""` then `"${@#"$q"$p}"` …: the Array arm of `trim::apply`
+  let arr := [subj, 'x' :: subj, subj ++ subj, []]
+  let a := trims.map fun (sd, ln) => ",".intercalate ((trimArray sd ln pa arr).map encChars)
+  let obs := s!"arm={arm} T={",".intercalate t} A={"/".intercalate a}"
   let a1 := parseAtoms pa
   let a2 := parseAtoms pb
   let spec :=
@@ -110,7 +119,8 @@ def observeShell (subj q1 p1 q2 p2 : List Char) : String × String :=
       let sarm := match specCase [a1, a2, [Atom.anyString]] subj with
         | some 0 => "1" | some 1 => "2" | some _ => "0" | none => "none"
       let st := trims.map fun (sd, ln) => encChars (specTrim sd ln a1 subj)
-      s!"=arm={sarm} T={",".intercalate st}"
+      let sa := trims.map fun (sd, ln) => ",".intercalate (arr.map fun v => encChars (specTrim sd ln a1 v))
+      s!"=arm={sarm} T={",".intercalate st} A={"/".intercalate sa}"
   (obs, spec)
 
 /-- pattern characters of one `case` alternative, by the way it is written in the script -/
@@ -127,22 +137,89 @@ def altChars (t : String) : Option (List PatternChar) :=
     | _ => none
   | _ => none
 
-def parseItem (t : String) : Option (List (List PatternChar) × CaseCont) :=
+/-- body of a case item in the generated script: `echo N`, nothing, or `echo N; st 5` -/
+inductive CaseBody where
+  | echo | empty | status
+  deriving DecidableEq
+
+def parseItem (t : String) : Option ((List (List PatternChar) × CaseCont) × CaseBody) :=
   match t.splitOn ":" with
   | [c, alts] => do
-    let c ← (match c with | "b" => some CaseCont.brk | "f" => some .fallThrough | "c" => some .cont | _ => none)
+    let (c, b) ← (match c.toList with
+      | [c] => some (c, 'e')
+      | [c, b] => some (c, b)
+      | _ => none)
+    let c ← (match c with | 'b' => some CaseCont.brk | 'f' => some .fallThrough | 'c' => some .cont | _ => none)
+    let b ← (match b with | 'e' => some CaseBody.echo | 'z' => some .empty | 's' => some .status | _ => none)
     let as ← (alts.splitOn ",").mapM altChars
-    pure (as, c)
+    pure ((as, c), b)
   | _ => none
 
 def showRun (l : List Nat) : String :=
   if l.isEmpty then "-" else ".".intercalate (l.map fun i => toString (i + 1))
 
-def observeCase (subj : List Char) (items : List (List (List PatternChar) × CaseCont)) : String × String :=
-  let obs := s!"run={showRun (caseExec items subj)} st=0"
+/-- `$?` after the `case` command, which is entered with `$?` = 7 (`case.rs execute`: `exit_status_updated` is
+    overwritten by every executed item with "its body is non-empty"; if the last executed body was empty, or
+    none ran, the status becomes 0; otherwise it is what the body left: `echo` 0, `st 5` 5) -/
+def caseStatus (bodies : List CaseBody) (executed : List Nat) : Nat :=
+  match executed.getLast? with
+  | none => 0
+  | some i => match bodies[i]? with
+    | some .status => 5
+    | _ => 0
+
+def showCase (bodies : List CaseBody) (executed : List Nat) : String :=
+  let shown := executed.filter fun i => bodies[i]? != some CaseBody.empty
+  s!"run={showRun shown} st={caseStatus bodies executed}"
+
+def observeCase (subj : List Char) (itemsB : List ((List (List PatternChar) × CaseCont) × CaseBody)) :
+    String × String :=
+  let items := itemsB.map Prod.fst
+  let bodies := itemsB.map Prod.snd
+  let obs := showCase bodies (caseExec items subj)
   let sitems := items.map fun (as, c) => (as.map parseAtoms, c)
-  let spec := s!"=run={showRun (specCaseExec subj false 0 sitems)} st=0"
+  let spec := "=" ++ showCase bodies (specCaseExec subj false 0 sitems)
   (obs, spec)
+
+/-! hand-built syntax trees (`a` cases): atoms joined by `,`; atom = `c<hex>` | `?` | `*` | `b<0|1>(<item>;…)`;
+    item = `a<batom>` | `r<batom>~<batom>`; batom = `c<hex>` char | `s<hex>` `[. .]` | `e<hex>` `[= =]` | `k<hex>` `[: :]` -/
+
+def parseBAtom (t : String) : Option BracketAtom :=
+  match t.toList with
+  | 'c' :: h => do
+    match ← decChars (String.ofList h) with
+    | [c] => some (.char c)
+    | _ => none
+  | 's' :: h => do pure (.collating (← decChars (String.ofList h)))
+  | 'e' :: h => do pure (.equiv (← decChars (String.ofList h)))
+  | 'k' :: h => do pure (.cls (← decChars (String.ofList h)))
+  | _ => none
+
+def parseBItem (t : String) : Option BracketItem :=
+  match t.toList with
+  | 'a' :: r => do pure (.atom (← parseBAtom (String.ofList r)))
+  | 'r' :: r =>
+    match (String.ofList r).splitOn "~" with
+    | [a, b] => do pure (.range (← parseBAtom a) (← parseBAtom b))
+    | _ => none
+  | _ => none
+
+def parseAstAtom (t : String) : Option Atom :=
+  match t.toList with
+  | ['?'] => some .anyChar
+  | ['*'] => some .anyString
+  | 'c' :: h => do
+    match ← decChars (String.ofList h) with
+    | [c] => some (.char c)
+    | _ => none
+  | 'b' :: n :: '(' :: r =>
+    let body := String.ofList (r.takeWhile (· != ')'))
+    let items := if body.isEmpty then some [] else (body.splitOn ";").mapM parseBItem
+    items.map fun is => .bracket { complement := n == '1', items := is }
+  | _ => none
+
+def parseAst (t : String) : Option Ast :=
+  if t == "-" then some [] else (t.splitOn ",").mapM parseAstAtom
 
 def runLine (line : String) : String :=
   let r : Option (String × String) :=
@@ -151,9 +228,11 @@ def runLine (line : String) : String :=
       let p ← decChars p
       let t ← decChars t
       let pcs := if esc == "e" then withEscape p else withoutEscape p
-      pure (observe pcs t)
+      pure (observe (parseAtoms pcs) t)
     | ["s", s, q1, p1, q2, p2] => do
       pure (observeShell (← decChars s) (← decChars q1) (← decChars p1) (← decChars q2) (← decChars p2))
+    | ["a", ast, t] => do
+      pure (observe (← parseAst ast) (← decChars t))
     | "k" :: subj :: items => do
       pure (observeCase (← decChars subj) (← items.mapM parseItem))
     | _ => none
